@@ -362,7 +362,9 @@ def main():
         if args.attribute:
             attrs = set(args.attribute)
             if ':all' in attrs:
-                attrs = {field.name for field in api.route_schema.fields}
+                # Keep the other names so that unknown ones are still reported.
+                attrs.remove(':all')
+                attrs |= {field.name for field in api.route_schema.fields}
         else:
             attrs = set()
 
